@@ -6,6 +6,7 @@ package ua
 
 import (
 	"fmt"
+	"io"
 	"reflect"
 	"time"
 
@@ -143,6 +144,14 @@ func (m *Variant) Decode(b []byte) (int, error) {
 	n := int(m.arrayLength)
 	if n > MaxVariantArrayLength {
 		return buf.Pos(), StatusBadEncodingLimitsExceeded
+	}
+	if n < -1 {
+		return buf.Pos(), StatusBadDecodingError
+	}
+	// every element takes at least one byte: do not allocate for more
+	// elements than the input can hold
+	if n > buf.Len() {
+		return buf.Pos(), io.ErrUnexpectedEOF
 	}
 
 	// get the type for the slice
